@@ -21,7 +21,8 @@ REGISTRY = {
                  "compiled by include!)",
     "text": "Theorems C14_whole_segment/C14_rewrite_frame/C14_roundtrip/C14_history/C14_spec (Props/C14.v) hold for every "
             "locale list, base path, route table (static/param/optional/splat/localized segments) and path reading, with the "
-            "`valid` hypothesis in the statements. The model is tied to /repo by running get_locale_from_path, get_new_path, "
+            "`valid` hypothesis in the statements; C14_first_match_frame/roundtrip/history/spec extend them to overlapping route "
+            "tables and unmatched paths with the router's first-matching-route semantics (any slash spelling of the path). The model is tied to /repo by running get_locale_from_path, get_new_path, "
             "switch histories and real I18nRoute trees on thousands of generated cases and evaluating the Coq spec on the "
             "implementation's answers.",
     "design_ref": "DESIGN.md §5 C14",
